@@ -117,7 +117,7 @@ func (e *engine) Meta() harness.Meta {
 			"programs share data only through channels, mutexes and synchronized objects, as the property requires",
 		},
 		FaultKinds:    []string{"schedule_perturbation", "clock_jump", "interrupt"},
-		QuickCases:    12000,
+		QuickCases:    24000,
 		ThoroughCases: 400000,
 	}
 }
@@ -193,7 +193,7 @@ func (e *engine) Generate(seed uint64, idx int, tier string, avoid []harness.Fin
 		c.Scen = "s7"
 		c.R = 2 + r.Intn(3) // defining routines, one qualifier each
 		c.Iter = 1 + r.Intn(3)
-	case x < 85:
+	case x < 84:
 		// S9 (seeded changes C17-k1, C17-k2): routines call ONE generic
 		// function with arguments of different classes; an :around method on
 		// t is part of every effective method; the routines are started from
@@ -203,7 +203,7 @@ func (e *engine) Generate(seed uint64, idx int, tier string, avoid []harness.Fin
 		c.Iter = 1 + r.Intn(5)
 		c.Kind = []string{"straight", "dolist", "dolist", "dovector"}[r.Intn(4)]
 		c.Nested = r.Pct(40) // a second :around, on one argument's own class
-	case x < 88:
+	case x < 87:
 		c.Scen = "s8"
 		c.R = 1 + r.Intn(3) // jobs, each calls its closure from a routine
 		c.Iter = 1 + r.Intn(4)
@@ -234,7 +234,7 @@ func (e *engine) Generate(seed uint64, idx int, tier string, avoid []harness.Fin
 	return b
 }
 
-var s4Kinds = []string{"defvar", "defun", "generic", "print", "lambda", "exit", "exit", "defclass", "defflavor",
+var s4Kinds = []string{"defvar", "defun", "generic", "print", "print", "lambda", "exit", "exit", "defclass", "defflavor",
 	"defstruct", "defpackage", "defconstant", "unbind", "apropos", "describe", "unintern", "lookup"}
 
 // ---- program generation ----
